@@ -240,7 +240,7 @@ def bump(dist, k, n=1):
 
 def gen(rng, tier, dist):
     out = []
-    ntree = 500 if tier == "quick" else 20000
+    ntree = 400 if tier == "quick" else 10000
     for _ in range(ntree):
         depth = rng.choice([1, 2, 2, 3, 3, 4])
         dirty = rng.random() < 0.15
